@@ -66,7 +66,12 @@ func shapes() []shape {
 		{"generic-nested", "Page§[Page§[int]]", "type Page§[T any] struct {\n\tItems []T `json:\"items\"`\n}\n", nil},
 		{"inline-struct", "struct{ A int }", "", nil},
 		{"func", "func(int) string", "", nil},
+		{"func-grouped-parameter-names", "func(a, b int) bool", "", nil},
+		{"func-named-grouped-results", "func() (n, m int)", "", nil},
+		{"func-variadic", "func(xs ...string)", "", nil},
+		{"func-of-func", "func(f func(int) int) func() error", "", nil},
 		{"chan", "chan int", "", nil},
+		{"chan-directional", "<-chan string", "", nil},
 		{"interface{}", "interface{}", "", nil},
 		{"any", "any", "", nil},
 		{"named-interface", "Shape§", "type Shape§ interface {\n\tArea() float64\n}\n", nil},
@@ -210,18 +215,18 @@ func annotationInputs(tier string) []input {
 func validatorInputs(tier string) []pairCase {
 	rules := []string{"gt", "gte", "lt", "lte", "min", "max", "len", "minItems", "maxItems", "uniqueItems", "pattern", "enum", "oneof", "email", "required", "eq", "dive", "unknownrule"}
 	args := []struct{ name, text string }{{"no-value", ""}, {"empty", "="}, {"non-numeric", "=abc"}, {"negative", "=-5"}, {"huge", "=99999999999999999999999"}, {"float", "=1.5"}, {"spaces", "= 3"}, {"repeated-values", "=a b a"}, {"repeated-numbers", "=2 2 1"}, {"pipes-repeated", "=a|b|a"}}
-	kinds := []struct{ name, goType string }{{"string", "string"}, {"int", "int"}, {"float64", "float64"}, {"bool", "bool"}, {"[]string", "[]string"}, {"struct", "VS§"}}
-	sitesV := []string{"field", "query", "body"}
+	kinds := []struct{ name, goType string }{{"string", "string"}, {"int", "int"}, {"float64", "float64"}, {"bool", "bool"}, {"[]string", "[]string"}, {"struct", "VS§"}, {"enum", "VEn§"}}
+	sitesV := []string{"field", "query", "body", "form"}
 	var out []pairCase
 	n := 0
 	for _, r := range rules {
 		for _, a := range args {
 			for _, k := range kinds {
 				for _, site := range sitesV {
-					if site == "query" && k.name == "struct" {
+					if (site == "query" || site == "form") && (k.name == "struct" || (site == "form" && k.name == "[]string")) {
 						continue
 					}
-					if tier != "thorough" && !(k.name == "string" || k.name == "int" || (k.name == "[]string" && site != "body") || (k.name == "struct" && site == "field")) {
+					if tier != "thorough" && !(k.name == "string" || k.name == "int" || k.name == "enum" || (k.name == "[]string" && site != "body") || (k.name == "struct" && site == "field")) {
 						continue
 					}
 					if tier != "thorough" && (a.name == "float" || a.name == "spaces") && site != "field" {
@@ -231,7 +236,7 @@ func validatorInputs(tier string) []pairCase {
 					n++
 					v := r + a.text
 					t := strings.ReplaceAll(k.goType, "§", id)
-					decl := "type VS" + id + " struct {\n\tQ int `json:\"q\"`\n}\n"
+					decl := "type VS" + id + " struct {\n\tQ int `json:\"q\"`\n}\n\ntype VEn" + id + " string\n\nconst (\n\tVEn" + id + "A VEn" + id + " = \"a\"\n\tVEn" + id + "B VEn" + id + " = \"b\"\n)\n"
 					m := scen.Method{Name: "Op" + id, Verb: "POST", Route: scen.S("/op")}
 					switch site {
 					case "field":
@@ -239,6 +244,9 @@ func validatorInputs(tier string) []pairCase {
 						m.Ret = "W" + id
 					case "query":
 						m.Params = []scen.Param{{Name: "p", Type: t, In: "Query", Validate: v}}
+						m.Ret = "VS" + id
+					case "form":
+						m.Params = []scen.Param{{Name: "p", Type: t, In: "FormField", Validate: v}}
 						m.Ret = "VS" + id
 					case "body":
 						if k.name != "struct" && k.name != "[]string" {
